@@ -314,6 +314,22 @@ namespace vf
              + jesc(msg) + "\",\"trace\":" + trace_json(60) + "}");
     }
 
+    // while alive, violations of the properties in `for_` also count as violations of `also_` (see context::also)
+    struct also_scope
+    {
+        std::string old_also, old_for;
+        also_scope(const char* also_, const char* for_) : old_also(cx().also), old_for(cx().also_for)
+        {
+            cx().also     = also_;
+            cx().also_for = for_;
+        }
+        ~also_scope()
+        {
+            cx().also     = old_also;
+            cx().also_for = old_for;
+        }
+    };
+
     inline void end_case(bool completed)
     {
         auto& c = cx();
